@@ -36,7 +36,8 @@ struct C22 : drv::Harness
 			else if (w < 65) p.ops.push_back(Op("phb", { 1 }));     // heartbeat carrying a TestReqID (answer to a pending test request)
 			else if (w < 75) p.ops.push_back(Op("papp"));
 			else if (w < 86) p.ops.push_back(Op("ptr", { rng.range(1, 999) }));
-			else if (w < 88) p.ops.push_back(Op("ptr_gap", { rng.range(1, 999) }));   // a TestRequest right after a message of the peer was lost: it arrives one number too high
+			else if (w < 88) p.ops.push_back(Op("ptr_gap", { rng.range(1, 999) }));
+			else if (w < 90) p.ops.push_back(Op("papp_gap"));       // an application message one number too high; the peer never answers the ResendRequest: supervision must go on in that state   // a TestRequest right after a message of the peer was lost: it arrives one number too high
 			else p.ops.push_back(Op("app"));
 		}
 		p.ops.push_back(Op("wait", { rng.range(1, (T20 + 3) * 2000) }));
@@ -59,7 +60,7 @@ struct C22 : drv::Harness
 		const int64_t t_logon = sim::now_ns();
 		std::vector<int64_t> recv_times{ t_logon };                    // instants at which a complete inbound message arrived
 		struct PeerTR { std::string id; size_t out_mark; int64_t t; }; std::vector<PeerTR> peer_trs;
-		struct PeerHB { int64_t t; int state_before; int state_after; }; std::vector<PeerHB> peer_hbs;
+		struct PeerHB { int64_t t; int state_before; int state_after; bool gap_open; }; std::vector<PeerHB> peer_hbs; bool gap_open = false;
 		int64_t t_end_obs = 0;
 
 		for (size_t i = 0; i < p.ops.size() && !w.ses->terminated(); ++i)
@@ -71,6 +72,7 @@ struct C22 : drv::Harness
 			if (w.ses->terminated()) break;
 			int st_before = (int)w.ses->st();
 			if (op.k == "phb") w.peer.send_msg("0", op.arg(0) ? Flds{ {112, "TEST"} } : Flds{});
+			else if (op.k == "papp_gap") { ++w.peer.out_seq; w.peer.send_msg("D", Peer::order_body("G" + std::to_string(w.peer.out_seq))); sim::count("probe_gap_left_open"); gap_open = true; }
 			else if (op.k == "papp") w.peer.send_msg("D", Peer::order_body("P" + std::to_string(w.peer.out_seq)));
 			else if (op.k == "ptr_gap")
 			{
@@ -86,7 +88,7 @@ struct C22 : drv::Harness
 			else if (op.k == "ptr") { std::string id = "REQ" + std::to_string(op.arg(0)) + "-" + std::to_string(i); peer_trs.push_back(PeerTR{id, w.out.size(), sim::now_ns()}); w.peer.send_msg("1", { {112, id} }); }
 			recv_times.push_back(sim::now_ns());
 			w.settle();
-			if (op.k == "phb") peer_hbs.push_back(PeerHB{sim::now_ns(), st_before, (int)w.ses->st()});
+			if (op.k == "phb") peer_hbs.push_back(PeerHB{sim::now_ns(), st_before, (int)w.ses->st(), gap_open});
 		}
 		w.settle();
 		t_end_obs = sim::now_ns();
@@ -138,7 +140,8 @@ struct C22 : drv::Harness
 			if (hb.state_before == States::st_test_request_sent)
 			{
 				sim::count("probe_heartbeat_while_test_request_pending");
-				if (hb.state_after != States::st_continuous) { r.fail("heartbeat_does_not_clear_test_request", fam, "Heartbeat received in state test_request_sent left the session in state " + std::string(state_name(hb.state_after))); break; }
+				// (with a gap left open by the peer the Heartbeat itself is too high and the session goes back to asking for a resend)
+				if (hb.gap_open ? hb.state_after == States::st_test_request_sent : hb.state_after != States::st_continuous) { r.fail("heartbeat_does_not_clear_test_request", fam, "Heartbeat received in state test_request_sent left the session in state " + std::string(state_name(hb.state_after))); break; }
 			}
 		// (f) a timeout Logout needs a TestRequest before it and no Heartbeat since
 		if (t_logout >= 0 && w.out[logout_idx].m.get(58).find("ignored my test request") != std::string::npos)
